@@ -873,7 +873,7 @@ func (t *protoTrace) afterRequest(c *Ctx, kind string, ci, di int, heads []int64
 			o11(c, "%s by c%d failed with %s but appended rows %d..%d to d%d", kind, ci, r.err, h0+1, h1, i)
 		}
 		if t.removed[i] {
-			o11(c, "KNOWN[c11-push-after-remove] %s by c%d appended rows %d..%d to d%d after the document was removed", kind, ci, h0+1, h1, i)
+			o11(c, "%s by c%d appended rows %d..%d to d%d after the document was removed", kind, ci, h0+1, h1, i)
 		}
 		allHonest := true
 		for _, h := range honest {
